@@ -25,31 +25,56 @@ pub enum Req {
     Ast(Update),
     /// raw text that the standard update entry point must refuse
     Rejected(&'static str, String),
+    /// hand-written request text (prologue, prefixed names, abbreviations) whose meaning is the
+    /// given AST
+    Raw(&'static str, String, Update),
+}
+
+fn form_label(u: &Update) -> &'static str {
+    match u {
+        Update::InsertData(_) => "insert_data",
+        Update::DeleteData(_) => "delete_data",
+        Update::Modify { delete: Some(_), insert: Some(_), .. } => "delete_insert_where",
+        Update::Modify { delete: Some(_), insert: None, .. } => "delete_where_template",
+        Update::Modify { delete: None, .. } => "insert_where",
+        Update::DeleteWhere(_) => "delete_where_shorthand",
+    }
 }
 
 impl Req {
     pub fn text(&self) -> String {
         match self {
             Req::Ast(u) => print_update(u, Layout::Canonical),
-            Req::Rejected(_, t) => t.clone(),
+            Req::Rejected(_, t) | Req::Raw(_, t, _) => t.clone(),
         }
     }
     pub fn label(&self) -> String {
         match self {
-            Req::Ast(u) => match u {
-                Update::InsertData(_) => "insert_data".into(),
-                Update::DeleteData(_) => "delete_data".into(),
-                Update::Modify { delete: Some(_), insert: Some(_), .. } => "delete_insert_where".into(),
-                Update::Modify { delete: Some(_), insert: None, .. } => "delete_where_template".into(),
-                Update::Modify { delete: None, .. } => "insert_where".into(),
-                Update::DeleteWhere(_) => "delete_where_shorthand".into(),
-            },
+            Req::Ast(u) => form_label(u).into(),
             Req::Rejected(l, _) => format!("rejected:{}", l),
+            Req::Raw(l, _, u) => format!("{}:{}", form_label(u), l),
+        }
+    }
+    /// the AST the reference executes; None = the request must be refused as malformed
+    pub fn model(&self) -> Option<&Update> {
+        match self {
+            Req::Ast(u) | Req::Raw(_, _, u) => Some(u),
+            Req::Rejected(..) => None,
         }
     }
 }
 
+/// Every request given as an AST: core alphabet, extension symbols, then the three requests the
+/// reference itself rejects. (C16 checks the parse tree of every syntactically valid one in
+/// every layout; C17 uses all of them as seeds.)
 pub fn valid_updates() -> Vec<Update> {
+    let mut v = core_updates();
+    v.extend(extension_updates());
+    v.extend(reference_rejected_updates());
+    v
+}
+
+pub fn core_updates() -> Vec<Update> {
     let spo = || tp(v("s"), i(P), v("o"));
     vec![
         // DATA forms
@@ -124,10 +149,51 @@ pub fn valid_updates() -> Vec<Update> {
             insert: None,
             pattern: Group(vec![Elem::Triples(vec![spo()]), Elem::Graph(v("g"), bgp(vec![spo()]))]),
         },
-        // requests the reference rejects (syntactic validation of DATA blocks / DELETE templates)
+    ]
+}
+
+/// requests the reference rejects (syntactic validation of DATA blocks / DELETE templates)
+pub fn reference_rejected_updates() -> Vec<Update> {
+    let spo = || tp(v("s"), i(P), v("o"));
+    vec![
         Update::InsertData(vec![dq(v("s"), i(P), i(B))]),
         Update::DeleteData(vec![dq(T::Bnode("b".into()), i(P), i(B))]),
         Update::Modify { delete: Some(vec![dq(T::Bnode("b".into()), i(P), v("o"))]), insert: None, pattern: bgp(vec![spo()]) },
+    ]
+}
+
+/// Extension symbols: template positions and request shapes the core alphabet never instantiates.
+/// They are kept apart because several of them create quads no core request can touch again
+/// (new predicates, new graphs), which multiplies the reachable state set; C03 bounds the depth
+/// of paths that contain one of them separately.
+pub fn extension_updates() -> Vec<Update> {
+    let spo = || tp(v("s"), i(P), v("o"));
+    vec![
+        // variable in PREDICATE position of a template: an IRI is a legal predicate, a literal
+        // ("1") or a blank node (left behind by the blank-node templates) is an illegal triple
+        // and is skipped for that solution
+        Update::Modify { delete: None, insert: Some(vec![dq(v("s"), v("o"), v("s"))]), pattern: bgp(vec![spo()]) },
+        // template graph variable bound by a NON-graph position: an IRI names a (possibly new)
+        // graph, a literal or blank node is illegal and skipped
+        Update::Modify { delete: None, insert: Some(vec![gq(v("o"), v("s"), i(P), v("s"))]), pattern: bgp(vec![spo()]) },
+        // unbound variable in every template position (subject / object / graph, DELETE and
+        // INSERT): each such quad is skipped - in particular an unbound variable in a DELETE
+        // template is not a wildcard. With at least one solution the only effect is (s p c).
+        Update::Modify {
+            delete: Some(vec![dq(v("s"), i(P), v("nb")), dq(v("nb"), i(P), v("s")), gq(v("nb"), v("s"), i(P), v("o"))]),
+            insert: Some(vec![dq(v("nb"), i(P), v("s")), gq(v("nb"), v("s"), i(P), v("s")), dq(v("s"), v("nb"), v("o")), dq(v("s"), i(P), i(C))]),
+            pattern: bgp(vec![spo()]),
+        },
+        // blank nodes in INSERT DATA: fresh per request, one label shared inside the request
+        Update::InsertData(vec![dq(T::Bnode("b".into()), i(P), i(C)), dq(T::Bnode("b".into()), i(P), i(A)), gq(i(G1), i(A), i(P), T::Bnode("b".into()))]),
+        // multi-quad DELETE WHERE: the quad block is template AND pattern (join of two patterns)
+        Update::DeleteWhere(vec![dq(v("s"), i(P), v("o")), dq(v("o"), i(P), v("z"))]),
+        // DELETE WHERE mixing the default graph and a named graph
+        Update::DeleteWhere(vec![dq(v("s"), i(P), v("o")), gq(i(G1), v("s"), i(P), v("o"))]),
+        // DELETE WHERE with a graph variable
+        Update::DeleteWhere(vec![gq(v("g"), v("s"), i(P), i(B))]),
+        // blank node in a DELETE WHERE quad block: the reference rejects it
+        Update::DeleteWhere(vec![dq(T::Bnode("b".into()), i(P), v("o"))]),
     ]
 }
 
@@ -144,9 +210,39 @@ pub fn rejected_texts() -> Vec<(&'static str, String)> {
     ]
 }
 
-/// Full alphabet, simplest first.
+/// Extension requests that are not plain ASTs: hand-written texts with a prologue, prefixed names
+/// and `;` abbreviations (meaning given as an AST), and two more malformed DATA blocks (a variable
+/// in GRAPH position; kept as raw text because C16 parses every AST of `valid_updates`).
+pub fn extension_raw() -> Vec<Req> {
+    let spo = || tp(v("s"), i(P), v("o"));
+    vec![
+        Req::Raw(
+            "prefixed",
+            "PREFIX e: <http://e/>\nDELETE { ?s e:p ?o } INSERT { GRAPH e:g2 { ?o e:p ?s } } WHERE { ?s e:p ?o }".to_string(),
+            Update::Modify { delete: Some(vec![dq(v("s"), i(P), v("o"))]), insert: Some(vec![gq(i(G2), v("o"), i(P), v("s"))]), pattern: bgp(vec![spo()]) },
+        ),
+        Req::Raw(
+            "prefixed_abbreviated",
+            "PREFIX : <http://e/> INSERT DATA { :a :p :c ; :p \"2\" . GRAPH :g2 { :b :p :a } }".to_string(),
+            Update::InsertData(vec![dq(i(A), i(P), i(C)), dq(i(A), i(P), T::lit("2")), gq(i(G2), i(B), i(P), i(A))]),
+        ),
+        Req::Rejected("variable_graph_in_insert_data", format!("INSERT DATA {{ GRAPH ?g {{ <{}> <{}> <{}> }} }}", A, P, B)),
+        Req::Rejected("variable_graph_in_delete_data", format!("DELETE DATA {{ GRAPH ?g {{ <{}> <{}> <{}> }} }}", A, P, B)),
+    ]
+}
+
+/// Size of the core alphabet = the first `CORE_LEN` entries of `alphabet()` (25 core requests, the
+/// 3 requests the reference rejects, 8 malformed texts). Entries from `CORE_LEN` on are extension
+/// symbols.
+pub const CORE_LEN: usize = 36;
+
+/// Full alphabet: core (simplest first), then the extension symbols.
 pub fn alphabet() -> Vec<Req> {
-    let mut v: Vec<Req> = valid_updates().into_iter().map(Req::Ast).collect();
+    let mut v: Vec<Req> = core_updates().into_iter().map(Req::Ast).collect();
+    v.extend(reference_rejected_updates().into_iter().map(Req::Ast));
     v.extend(rejected_texts().into_iter().map(|(l, t)| Req::Rejected(l, t)));
+    assert_eq!(v.len(), CORE_LEN);
+    v.extend(extension_updates().into_iter().map(Req::Ast));
+    v.extend(extension_raw());
     v
 }
